@@ -61,6 +61,11 @@
 static jmp_buf test_exit_jmp_buf[10];
 static int jmp_buf_index = 0;
 
+#ifdef CPPUTEST_VERIF_HOOKS
+/* Verification instrumentation (compiled only under the guard): read-only view of the jump buffer depth. */
+extern "C" int cpputest_verif_jmp_buf_depth(void) { return jmp_buf_index; }
+#endif
+
 // There is a possibility that a compiler provides fork but not waitpid.
 #if !defined(CPPUTEST_HAVE_FORK) || !defined(CPPUTEST_HAVE_WAITPID) || !defined(CPPUTEST_HAVE_KILL)
 
